@@ -315,6 +315,54 @@ def _hv_truth(prog):
     return hv_truth(prog)
 
 
+def node_flag(prog: Program) -> RuleResult:
+    """A node met again for a binding it has answered already (its id is bound in the incoming bindings) repeats its answer from a flag kept
+    on the node (`yield OperationResult(sources, self._is_false_, self)`).  The flag is written while the results are computed - so it is
+    the answer for the binding that is being handed on *only if each result is handed on before the next one is computed*.  An evaluation
+    that computes all its results first (a list, sorted(...), a comprehension drained before the yield) leaves the flag at the answer for the
+    last binding: `big = x.a > 10; or_(and_(big, ...), and_(not_(big), ...))` then takes the second branch by the flag of another x."""
+    from ..model import walk_local
+    from ..astutil import site, is_self_attr
+    from ..callgraph import self_closure
+    from .c10 import _stream_scan, _eager_params
+
+    r = RuleResult("NODE-FLAG", "a node that repeats its answer from a flag hands each result on before it computes the next", floor=1)
+    se = prog.cls("symbolic.SymbolicExpression")
+    ep = _eager_params(prog)
+    seen = set()
+    n = 0
+    for c in sorted(prog.subclasses(se.qual), key=lambda x: x.qual):
+        f = prog.lookup(c.qual, "_evaluate__")
+        if f is None or f.qual in seen:
+            continue
+        seen.add(f.qual)
+        # the bound branch: a yield of a result whose flag argument is read from self, under a test that the node's id is bound
+        repeats = None
+        for t in [x for x in walk_local(f.node) if isinstance(x, ast.If)]:
+            if not (isinstance(t.test, ast.Compare) and isinstance(t.test.ops[0], ast.In) and "_id_" in src(t.test.left)):
+                continue
+            for y in [y for st in t.body for y in ast.walk(st) if isinstance(y, (ast.Yield, ast.YieldFrom))]:
+                reads = [a.attr for a in ast.walk(y) if is_self_attr(a) and a.attr.startswith("_is_")]
+                if reads:
+                    repeats = (t, reads[0])
+        if repeats is None:
+            continue
+        flag = repeats[1]
+        fs, _ = self_closure(prog, c.qual, f, True)
+        writers = [g for g in fs if any(isinstance(x, ast.Assign) and any(is_self_attr(t) and t.attr == flag for t in x.targets) for x in walk_local(g.node))]
+        if not writers:
+            continue
+        n += 1
+        hits = _stream_scan(prog, f, ep)
+        r.check(not hits, f"{f.short}#results-handed-on-one-by-one", site(f, hits[0][0]) if hits else site(f, repeats[0]), src(hits[0][0])[:100] if hits else f"flag {flag} written in {[g.short for g in writers]}",
+                "the results are produced by a generator: the flag is the answer for the binding being handed on",
+                f"{hits[0][1] if hits else ''}: all results are computed before the first is handed on, so `self.{flag}` holds the answer for the last binding when the node is met "
+                f"again for an earlier one (the same comparison used in two branches of an else-if)")
+    if n < 1:
+        raise AnalysisError("NODE-FLAG: no evaluation repeats its answer from a node flag (Comparator expected)")
+    return r
+
+
 def run(prog: Program, tier: str) -> List[RuleResult]:
     _cache.clear()
     from .c01 import ep_neg
@@ -333,4 +381,4 @@ def run(prog: Program, tier: str) -> List[RuleResult]:
             # comparisons are the other atoms: the verdict is the operator applied to the operand values of this assignment
             guard(lambda: cmp_apply(prog)),
             # an operand flagged false is dropped by the comparator: the flag must come from this evaluation, in condition position only
-            guard(lambda: ep_operand(prog)), guard(lambda: _hv_truth(prog)), guard(lambda: _qc_path(prog))]
+            guard(lambda: ep_operand(prog)), guard(lambda: _hv_truth(prog)), guard(lambda: _qc_path(prog)), guard(lambda: node_flag(prog))]
